@@ -1,6 +1,6 @@
 ----------------------------- MODULE MC_Config -----------------------------
 EXTENDS Config
-MCFile == Layer
+MCFile == FileLayer
 MCKw == Layer
 MCFail == AllFailKinds
 View == state
